@@ -22,3 +22,11 @@ add("C15",
 add("C16",
     "TLC computes the substituted contract itself (Contracts!Renamed: coefficient addition on integer rows, RenameSet on the interface) and demands semantic equality with the recorded result of rename_variable (assumptions <=>, a/\\g <=>), equal interface sets, IncompatibleArgsError exactly for an input/output clash, identity for absent source or equal names.",
     _OPS_NOTE, "TLC trace validation: spec-computed expected result vs recorded result, equivalence by Farkas certificates", "DESIGN.md 6/C16")
+add("C05",
+    "spec/Algebra.tla models compose_tactics, quotient_tactics, merge and the constructor statement by statement over uninterpreted predicates [tag, vars]; every primitive call has every outcome its documented contract allows (clean result, leftovers, both, nothing, ValueError; refines true/false) and leaves a Horn axiom. TLC explores the model exhaustively and decides the obligations of C01/C02/C08 by Horn forward chaining, which is complete for ALL predicate contents (single-world reduction). Binding: the real IoContract is driven over a scripted symbolic TermList; every outcome path on generated topologies is recorded and TLC (TraceAlgebra.tla) (a) decides the obligation from the log alone and (b) checks the path is a behaviour of the model with identical terminal state.",
+    "Bounded only syntactically: 2-3 variables, <= 1 assumption and <= 2 guarantee terms per operand, reduced outcome shapes (monotonicity argument, DESIGN 3.3). Trusted: TLC, the 150-line symbolic driver (symdrv.py). The primitive contracts are those of the abstract-method docstrings.",
+    "TLC exhaustive model checking of Algebra.tla + TLC trace validation of every outcome path of the real algebra code over a symbolic constraint domain", "DESIGN.md 3.3, 6/C05")
+add("C06",
+    "spec/Itf.tla: for every role assignment of 4 (thorough: 5) variables TLC checks that the list algebra of the code equals the worded prescription, is duplicate free and well formed for meaningful requests. Binding: (a) symbolic contents -- every outcome path of the real compose/quotient/merge, the constructor with planted duplicates/overlaps/stray variables, refines across interfaces, copy and rename, judged by TraceAlgebra!OblJudge/ItfJudge (prescribed interface, well-formedness, IncompatibleArgsError exactly for meaningless requests, operands intact); (b) polyhedral contents -- group itf of TraceOps.tla on the C01/C02/C08/C16 generators.",
+    "Interfaces are compared as sets (list order is free), duplicates as sequences. Where the code legitimately raises for another documented reason first (ValueError from an unsatisfiable system, IncompatibleArgsError for variables that cannot be eliminated) the event is accepted.",
+    "TLC exhaustive check of the interface algebra + TLC trace validation of recorded operations (symbolic and polyhedral contents)", "DESIGN.md 3.2, 6/C06")
